@@ -1,1 +1,539 @@
 // verification harness (compiled into ntpd/src/daemon/system.rs under cfg(all(test, pendulum_project_ntpd_rs_verif)))
+//
+// Harness for spec/SysTask.tla (the system task's source life cycle; stage "SysTask" of C36).
+// A REAL `SystemTask` is built with `SystemTask::new` around a scripted clock controller (`Ctl`: records add_source /
+// add_one_way_source, reports the scripted list of used sources and a time snapshot carrying a per-step marker) and a
+// fixed clock, scripted spawners are registered with the real `add_spawner` (so the real `spawner_task` forwards the
+// SystemEvents to the recording handlers; `is_complete()` is always true, the spawners never act on their own), and
+// `SystemTask::run` runs as a task on a current-thread tokio runtime with the clock paused.  Actions of the model:
+//   {"t":"Create","sp":n,"kind":"Ntp"|"Sock"}  SpawnEvent(Create) with spawner n's id on the real `spawn_tx`
+//        (sp = NSp+1: a SpawnerId the system has never seen).  NTP sources point to 127.0.0.<model id>:<unused port>,
+//        plain NTPv4, poll interval 2^17 s (the real SourceTask polls once, at once, and then stays silent);
+//        SOCK sources bind /tmp/verif_systask_<pid>_<n>.sock.
+//   {"t":"Msg","k":kind,"id":i}                MsgForSystem::kind(ClockId of i) on the real `msg_for_system_tx`
+//        (i never created: a ClockId the system has never seen)
+//   {"t":"Exit","id":i}                        what the source task does after sending: removes its snapshot entry
+//        (done by the driver, which also sent the message in the task's name; the real task stays parked)
+//   {"t":"Use","u":[i..]}                      the scripted controller reports these sources as used from now on
+//   {"t":"Tick"}                               the paused clock advances by 1000 ms: one iteration of the timer loop
+// After every action the driver yields `settle` times (it never blocks, so the paused clock never auto-advances) and
+// projects the real state: sources table (ClockId -> spawner, SourceType), every event every scripted spawner has
+// received so far, what the controller was told, keys of source_snapshots, reference of the published SystemSnapshot,
+// whether the system task has panicked.  A panic of the system task is data.
+#![allow(clippy::all, dead_code)]
+
+use super::*;
+use crate::daemon::config::NormalizedAddress;
+use crate::daemon::spawn::{NtpSourceCreateParameters, SockSourceCreateParameters, SourceRemovedEvent};
+use ntp_proto::{
+    KeySetProvider, Measurement, NtpDuration, NtpLeapIndicator, NtpTimestamp, ObservableSourceTimedata, PollInterval,
+    PollIntervalLimits, ProtocolVersion, ReferenceId, SourceController, TimeSnapshot,
+};
+use serde_json::{Value, json};
+use std::net::{Ipv4Addr, SocketAddr};
+use std::path::PathBuf;
+use std::time::Duration;
+
+#[path = "/verif/harness/common/util.rs"]
+mod util;
+
+// ---------------------------------------------------------------------------------------------------------------
+// scripted environment
+// ---------------------------------------------------------------------------------------------------------------
+#[derive(Default)]
+struct Shared {
+    added: Vec<(ClockId, &'static str)>, // add_source -> "Ntp", add_one_way_source -> "Sock"
+    used: Vec<ClockId>,
+    marker: f64,
+    events: Vec<(usize, &'static str, ClockId, String)>, // (spawner index from 1, "registered"|"removed", id, reason)
+    try_spawn_calls: usize,
+}
+
+#[derive(Clone)]
+struct Clk {
+    sh: Arc<Mutex<Shared>>,
+}
+
+impl NtpClock for Clk {
+    type Error = std::io::Error;
+    fn now(&self) -> Result<NtpTimestamp, Self::Error> {
+        Ok(NtpTimestamp::from_seconds_nanos_since_ntp_era(3_800_000_000, 0))
+    }
+    fn set_frequency(&self, _: f64) -> Result<NtpTimestamp, Self::Error> {
+        self.now()
+    }
+    fn get_frequency(&self) -> Result<f64, Self::Error> {
+        Ok(0.0)
+    }
+    fn step_clock(&self, _: NtpDuration) -> Result<NtpTimestamp, Self::Error> {
+        self.now()
+    }
+    fn disable_ntp_algorithm(&self) -> Result<(), Self::Error> {
+        Ok(())
+    }
+    fn error_estimate_update(&self, _: NtpDuration, _: NtpDuration) -> Result<(), Self::Error> {
+        Ok(())
+    }
+    fn status_update(&self, _: NtpLeapIndicator) -> Result<(), Self::Error> {
+        Ok(())
+    }
+}
+
+struct SrcCtl;
+
+impl SourceController for SrcCtl {
+    fn handle_measurement(&mut self, _: Measurement) {}
+    fn set_usable(&mut self, _: bool) {}
+    fn desired_poll_interval(&self) -> PollInterval {
+        PollInterval::from_byte(17)
+    }
+    fn observe(&self) -> ObservableSourceTimedata {
+        ObservableSourceTimedata::default()
+    }
+}
+
+struct Ctl {
+    sh: Arc<Mutex<Shared>>,
+}
+
+impl TimeSyncController for Ctl {
+    type Clock = Clk;
+    type AlgorithmConfig = ();
+    type NtpSourceController = SrcCtl;
+    type OneWaySourceController = SrcCtl;
+
+    fn new(clock: Clk, _: SynchronizationConfig, _: ()) -> Result<Self, std::io::Error> {
+        Ok(Ctl { sh: clock.sh.clone() })
+    }
+    fn take_control(&self) -> Result<(), std::io::Error> {
+        Ok(())
+    }
+    fn add_source(&self, id: ClockId, _: SourceConfig) -> SrcCtl {
+        self.sh.lock().unwrap().added.push((id, "Ntp"));
+        SrcCtl
+    }
+    fn add_one_way_source(&self, id: ClockId, _: SourceConfig, _: f64, _: f64, _: Option<f64>) -> SrcCtl {
+        self.sh.lock().unwrap().added.push((id, "Sock"));
+        SrcCtl
+    }
+    fn synchronization_state(&self) -> (TimeSnapshot, Vec<ClockId>) {
+        let s = self.sh.lock().unwrap();
+        let mut ts = TimeSnapshot::default();
+        ts.root_delay = NtpDuration::from_seconds(s.marker);
+        (ts, s.used.clone())
+    }
+    async fn run(&self) {
+        std::future::pending::<()>().await
+    }
+}
+
+#[derive(Debug)]
+struct ScriptError;
+impl std::fmt::Display for ScriptError {
+    fn fmt(&self, f: &mut std::fmt::Formatter<'_>) -> std::fmt::Result {
+        f.write_str("scripted spawner error")
+    }
+}
+impl std::error::Error for ScriptError {}
+
+struct Scripted {
+    id: SpawnerId,
+    idx: usize,
+    sh: Arc<Mutex<Shared>>,
+}
+
+impl Spawner for Scripted {
+    type Error = ScriptError;
+
+    async fn try_spawn(&mut self, _: &mpsc::Sender<SpawnEvent>) -> Result<(), ScriptError> {
+        self.sh.lock().unwrap().try_spawn_calls += 1;
+        Ok(())
+    }
+    fn is_complete(&self) -> bool {
+        true
+    }
+    async fn handle_source_removed(&mut self, ev: SourceRemovedEvent) -> Result<(), ScriptError> {
+        self.sh.lock().unwrap().events.push((self.idx, "removed", ev.id, format!("{:?}", ev.reason)));
+        Ok(())
+    }
+    async fn handle_registered(&mut self, ev: SourceCreateParameters) -> Result<(), ScriptError> {
+        self.sh.lock().unwrap().events.push((self.idx, "registered", ev.get_id(), "-".to_string()));
+        Ok(())
+    }
+    fn get_id(&self) -> SpawnerId {
+        self.id
+    }
+    fn get_addr_description(&self) -> String {
+        format!("scripted {}", self.idx)
+    }
+    fn get_description(&self) -> &'static str {
+        "scripted"
+    }
+}
+
+// ---------------------------------------------------------------------------------------------------------------
+// system under test
+// ---------------------------------------------------------------------------------------------------------------
+struct Sut {
+    sh: Arc<Mutex<Shared>>,
+    spawn_tx: mpsc::Sender<SpawnEvent>,
+    msg_tx: mpsc::Sender<MsgForSystem>,
+    sources: Arc<Mutex<HashMap<ClockId, SourceState>>>,
+    snaps: Arc<RwLock<HashMap<ClockId, ObservableSourceState>>>,
+    sys_rx: tokio::sync::watch::Receiver<SystemSnapshot>,
+    handle: Option<JoinHandle<std::io::Result<()>>>,
+    died: Option<String>,
+    spawners: Vec<SpawnerId>, // index 0..nsp-1 registered, index nsp = the ghost
+    nsp: usize,
+    max_id: usize,
+    ids: Vec<ClockId>, // model id k -> ids[k-1]
+    phantom: HashMap<usize, ClockId>,
+    seen_events: usize,
+    step: u64,
+    settle: usize,
+    socks: Vec<PathBuf>,
+    _keep: (tokio::sync::watch::Sender<Arc<KeySet>>, tokio::sync::watch::Sender<Arc<[IpAddr]>>),
+}
+
+fn unused_port(ip: Ipv4Addr) -> u16 {
+    let s = std::net::UdpSocket::bind(SocketAddr::new(IpAddr::V4(ip), 0)).expect("harness: cannot bind a probe socket");
+    s.local_addr().unwrap().port()
+}
+
+async fn yields(n: usize) {
+    for _ in 0..n {
+        tokio::task::yield_now().await;
+    }
+}
+
+impl Sut {
+    /// must be called inside the runtime
+    async fn new(cfg: &Value) -> Sut {
+        let nsp = cfg["NSp"].as_u64().unwrap() as usize;
+        let max_id = cfg["MaxId"].as_u64().unwrap() as usize;
+        let settle = cfg["settle"].as_u64().unwrap_or(40) as usize;
+        let sh = Arc::new(Mutex::new(Shared::default()));
+        let (ks_tx, ks_rx) = tokio::sync::watch::channel(KeySetProvider::new(1).get());
+        let no_ips: Arc<[IpAddr]> = Arc::from(Vec::<IpAddr>::new());
+        let (ip_tx, ip_rx) = tokio::sync::watch::channel(no_ips);
+        let (mut system, channels) = SystemTask::<Clk, Ctl>::new(
+            Clk { sh: sh.clone() },
+            None,
+            TimestampMode::Software,
+            SynchronizationConfig::default(),
+            (),
+            &ks_rx,
+            ip_rx,
+            true,
+            CsptpConfig::default(),
+        );
+        let mut spawners = vec![];
+        for idx in 1..=nsp {
+            let id = SpawnerId::new();
+            let got = system.add_spawner(Scripted { id, idx, sh: sh.clone() });
+            assert!(got == id, "harness: add_spawner returned another id");
+            spawners.push(id);
+        }
+        spawners.push(SpawnerId::new()); // the ghost: never registered
+        let spawn_tx = system.spawn_tx.clone();
+        let msg_tx = system.msg_for_system_tx.clone();
+        let sources = system.sources.clone();
+        let handle = tokio::spawn(async move { system.run().await });
+        let mut sut = Sut {
+            sh,
+            spawn_tx,
+            msg_tx,
+            sources,
+            snaps: channels.source_snapshots,
+            sys_rx: channels.system_snapshot_receiver,
+            handle: Some(handle),
+            died: None,
+            spawners,
+            nsp,
+            max_id,
+            ids: vec![],
+            phantom: HashMap::new(),
+            seen_events: 0,
+            step: 0,
+            settle,
+            socks: vec![],
+            _keep: (ks_tx, ip_tx),
+        };
+        // the timer loop's first iteration runs at once
+        yields(sut.settle).await;
+        let _ = sut.sys_rx.borrow_and_update();
+        sut
+    }
+
+    fn real_id(&mut self, k: usize) -> ClockId {
+        if k >= 1 && k <= self.ids.len() {
+            self.ids[k - 1]
+        } else {
+            *self.phantom.entry(k).or_insert_with(ClockId::new)
+        }
+    }
+
+    fn model_id(&self, id: ClockId) -> Option<usize> {
+        self.ids.iter().position(|x| *x == id).map(|p| p + 1)
+    }
+
+    async fn apply(&mut self, act: &Value) -> (Value, Value, Option<String>) {
+        self.step += 1;
+        let pre_owner: HashMap<ClockId, SpawnerId> = {
+            let t = self.sources.lock().unwrap_or_else(|e| e.into_inner());
+            t.iter().map(|(k, v)| (*k, v.spawner_id)).collect()
+        };
+        let mut msg_target = None;
+        match act["t"].as_str().unwrap() {
+            "Create" => {
+                let sp = act["sp"].as_u64().unwrap() as usize;
+                let spawner = self.spawners[sp - 1];
+                let id = ClockId::new();
+                self.ids.push(id);
+                let k = self.ids.len();
+                let limits = PollIntervalLimits { min: PollInterval::from_byte(17), max: PollInterval::from_byte(17) };
+                let config = SourceConfig { poll_interval_limits: limits, initial_poll_interval: PollInterval::from_byte(17) };
+                let params = match act["kind"].as_str().unwrap() {
+                    "Ntp" => {
+                        let ip = Ipv4Addr::new(127, 0, 0, k as u8);
+                        let addr = SocketAddr::new(IpAddr::V4(ip), unused_port(ip));
+                        SourceCreateParameters::Ntp(NtpSourceCreateParameters {
+                            id,
+                            addr,
+                            normalized_addr: NormalizedAddress::with_hardcoded_dns("source.verif.test", addr.port(), vec![addr]),
+                            protocol_version: ProtocolVersion::V4,
+                            config,
+                            nts: None,
+                        })
+                    }
+                    "Sock" => {
+                        let path = PathBuf::from(format!("/tmp/verif_systask_{}_{}.sock", std::process::id(), k));
+                        self.socks.push(path.clone());
+                        SourceCreateParameters::Sock(SockSourceCreateParameters { id, path, config, precision: 1e-3, accuracy: 1e-3 })
+                    }
+                    other => panic!("harness: unknown source kind {other}"),
+                };
+                self.spawn_tx.try_send(SpawnEvent::new(spawner, SpawnAction::Create(params))).expect("harness: spawn channel full or closed");
+            }
+            "Msg" => {
+                let id = self.real_id(act["id"].as_u64().unwrap() as usize);
+                msg_target = Some(id);
+                let msg = match act["k"].as_str().unwrap() {
+                    "NetworkIssue" => MsgForSystem::NetworkIssue(id),
+                    "Unreachable" => MsgForSystem::Unreachable(id),
+                    "MustDemobilize" => MsgForSystem::MustDemobilize(id),
+                    other => panic!("harness: unknown message kind {other}"),
+                };
+                self.msg_tx.try_send(msg).expect("harness: message channel full or closed");
+            }
+            "Exit" => {
+                let id = self.real_id(act["id"].as_u64().unwrap() as usize);
+                self.snaps.write().unwrap().remove(&id);
+            }
+            "Use" => {
+                let u: Vec<ClockId> = act["u"].as_array().unwrap().iter().map(|x| x.as_u64().unwrap() as usize).collect::<Vec<_>>()
+                    .into_iter().map(|k| self.real_id(k)).collect();
+                self.sh.lock().unwrap().used = u;
+            }
+            "Tick" => {
+                self.sh.lock().unwrap().marker = self.step as f64;
+                tokio::time::advance(Duration::from_millis(1000)).await;
+            }
+            other => panic!("harness: unknown action {other}"),
+        }
+        yields(self.settle).await;
+        self.observe(act, msg_target, &pre_owner).await
+    }
+
+    async fn observe(&mut self, act: &Value, msg_target: Option<ClockId>, pre_owner: &HashMap<ClockId, SpawnerId>) -> (Value, Value, Option<String>) {
+        let mut extra: Vec<String> = vec![];
+        // has the system task ended?
+        if self.handle.as_ref().map(|h| h.is_finished()).unwrap_or(false) {
+            let h = self.handle.take().unwrap();
+            self.died = Some(match h.await {
+                Ok(r) => format!("system task returned {r:?}"),
+                Err(e) if e.is_panic() => {
+                    let p = e.into_panic();
+                    let m = p.downcast_ref::<&str>().map(|s| s.to_string()).or_else(|| p.downcast_ref::<String>().cloned());
+                    format!("panic: {}", m.unwrap_or_else(|| "<non-string>".to_string()))
+                }
+                Err(e) => format!("system task cancelled: {e}"),
+            });
+        }
+        // the table
+        let n = self.max_id;
+        let mut owner = vec![0i64; n];
+        let mut kind = vec!["-".to_string(); n];
+        {
+            let t = self.sources.lock().unwrap_or_else(|e| e.into_inner());
+            for (id, state) in t.iter() {
+                if state.source_id != *id {
+                    extra.push(format!("table entry {id:?} holds source id {:?}", state.source_id));
+                }
+                match self.model_id(*id) {
+                    Some(k) if k <= n => {
+                        owner[k - 1] = self.spawners.iter().position(|s| *s == state.spawner_id).map(|p| p as i64 + 1).unwrap_or(-1);
+                        kind[k - 1] = format!("{:?}", state.stype);
+                    }
+                    _ => extra.push(format!("table holds an unknown id {id:?}")),
+                }
+            }
+        }
+        // events, what the controller was told
+        let mut reg = vec![0i64; n];
+        let mut rem: Vec<Value> = vec![json!({"to": 0, "reason": "-"}); n];
+        let mut ctl = vec!["-".to_string(); n];
+        let mut evs: Vec<(i64, String, i64, String)> = vec![];
+        let mut reasons: Vec<String> = vec![];
+        {
+            let s = self.sh.lock().unwrap();
+            for (i, (to, e, id, reason)) in s.events.iter().enumerate() {
+                let k = self.model_id(*id);
+                if i >= self.seen_events {
+                    evs.push((*to as i64, e.to_string(), k.map(|k| k as i64).unwrap_or(-1), reason.clone()));
+                    if *e == "removed" && Some(*id) == msg_target && pre_owner.get(id) == self.spawners.get(*to - 1) {
+                        reasons.push(reason.clone());
+                    }
+                }
+                match k {
+                    Some(k) if k <= n && *e == "registered" => {
+                        if reg[k - 1] != 0 {
+                            extra.push(format!("source {k} announced more than once"));
+                        }
+                        reg[k - 1] = *to as i64;
+                    }
+                    Some(k) if k <= n => {
+                        if rem[k - 1]["to"] != json!(0) {
+                            extra.push(format!("more than one removed event for source {k}"));
+                        }
+                        rem[k - 1] = json!({"to": to, "reason": reason});
+                    }
+                    _ => extra.push(format!("event {e} for an unknown id {id:?}")),
+                }
+            }
+            self.seen_events = s.events.len();
+            for (id, how) in s.added.iter() {
+                match self.model_id(*id) {
+                    Some(k) if k <= n => {
+                        if ctl[k - 1] != "-" {
+                            extra.push(format!("controller told twice about source {k}"));
+                        }
+                        ctl[k - 1] = how.to_string();
+                    }
+                    _ => extra.push(format!("controller told about an unknown id {id:?}")),
+                }
+            }
+            if s.try_spawn_calls > 0 {
+                extra.push("try_spawn called on a complete spawner".to_string());
+            }
+        }
+        evs.sort();
+        // the observer's source snapshots
+        let mut snaps: Vec<i64> = vec![];
+        for id in self.snaps.read().unwrap().keys() {
+            match self.model_id(*id) {
+                Some(k) => snaps.push(k as i64),
+                None => extra.push(format!("source_snapshots holds an unknown id {id:?}")),
+            }
+        }
+        snaps.sort();
+        // the published system snapshot
+        let changed = self.sys_rx.has_changed().unwrap_or(false);
+        let snap = *self.sys_rx.borrow_and_update();
+        let refid = snap.ntp_snapshot.reference_id;
+        let stratum = snap.ntp_snapshot.stratum;
+        let mut publ = json!({"k": "?", "id": -1, "stratum": stratum});
+        if refid == ReferenceId::NONE {
+            publ = json!({"k": "none", "id": 0});
+            if stratum != 16 {
+                extra.push(format!("no reference but stratum {stratum}"));
+            }
+        } else if refid == ReferenceId::SOCK {
+            publ = json!({"k": "Sock", "id": 0});
+            if stratum != 1 {
+                extra.push(format!("SOCK reference but stratum {stratum}"));
+            }
+        } else {
+            for k in 1..=self.ids.len() {
+                if refid == ReferenceId::from_ip(IpAddr::V4(Ipv4Addr::new(127, 0, 0, k as u8))) {
+                    publ = json!({"k": "Ntp", "id": k});
+                }
+            }
+        }
+        let mut fresh = json!(changed);
+        if changed && act["t"] == "Tick" && snap.time_snapshot.root_delay != NtpDuration::from_seconds(self.step as f64) {
+            fresh = json!("stale time snapshot");
+        }
+        let st = json!({"owner": owner, "kind": kind, "ctl": ctl, "snaps": snaps, "pub": publ, "reg": reg, "rem": rem,
+                        "dead": self.died.is_some(), "extra": extra});
+        let evs: Vec<Value> = evs.into_iter().map(|(to, e, id, reason)| json!({"to": to, "e": e, "id": id, "reason": reason})).collect();
+        let out = json!({"evs": evs, "fresh": fresh, "reasons": reasons, "panic": self.died.is_some()});
+        (st, out, self.died.clone())
+    }
+}
+
+fn compare(exp_post: &Value, exp_out: &Value, st: &Value, out: &Value) -> Vec<String> {
+    let mut d = vec![];
+    for k in ["owner", "kind", "ctl", "snaps", "pub", "reg", "rem"] {
+        if exp_post[k] != st[k] {
+            d.push(k.to_string());
+        }
+    }
+    if st["extra"].as_array().map(|a| !a.is_empty()).unwrap_or(true) {
+        d.push("extra".to_string());
+    }
+    if exp_post["dead"] != st["dead"] || exp_out["panic"] != out["panic"] {
+        d.push("panic".to_string());
+    }
+    for k in ["evs", "fresh"] {
+        if exp_out[k] != out[k] {
+            d.push(format!("out.{k}"));
+        }
+    }
+    // the reason delivered to the owning spawner: compared when (and only when) such an event was delivered
+    if out["reasons"].as_array().unwrap().iter().any(|r| *r != exp_out["reason"]) {
+        d.push("out.reason".to_string());
+    }
+    d
+}
+
+fn replay(job: &Value) {
+    let _ = util::catch(|| ()); // installs the quiet panic hook
+    let walks = util::read_ndjson(job["input"].as_str().unwrap());
+    let mut outp = util::NdjsonOut::create(job["output"].as_str().unwrap());
+    for w in walks {
+        let rt = tokio::runtime::Builder::new_current_thread().enable_all().start_paused(true).build().unwrap();
+        let steps = w["walk"].as_array().unwrap().clone();
+        let cfg = job["cfg"].clone();
+        let (run, fail, socks) = rt.block_on(async move {
+            let mut sut = Sut::new(&cfg).await;
+            let mut fail = Value::Null;
+            let mut run = 0;
+            for (n, st) in steps.iter().enumerate() {
+                let (obs_st, obs_out, panic) = sut.apply(&st["act"]).await;
+                run = n + 1;
+                let d = compare(&st["post"], &st["out"], &obs_st, &obs_out);
+                if !d.is_empty() {
+                    fail = json!({"step": n, "fields": d, "observed": {"st": obs_st, "out": obs_out}, "panic": panic});
+                    break;
+                }
+            }
+            (run, fail, sut.socks.clone())
+        });
+        drop(rt);
+        for p in socks {
+            let _ = std::fs::remove_file(p);
+        }
+        outp.put(&json!({"id": w["id"], "steps_run": run, "fail": fail}));
+    }
+    outp.finish();
+}
+
+#[test]
+fn verif_systask() {
+    let job = util::job();
+    match job["mode"].as_str().unwrap() {
+        "replay" => replay(&job),
+        m => panic!("unknown mode {m}"),
+    }
+}
